@@ -76,7 +76,7 @@ func drawGatePlan(rt *rapid.T) gatePlan {
 		case k <= 12:
 			p.Steps = append(p.Steps, gateStep{Op: "rewrite"})
 		default:
-			if restarts < 2 {
+			if restarts < ev.Pick(1, 2) {
 				restarts++
 				p.Steps = append(p.Steps, gateStep{Op: "restart"})
 			} else {
@@ -348,7 +348,7 @@ func TestC15_GateState(t *testing.T) {
 			return
 		}
 	}
-	ev.Rapid("gatestate", ev.Pick(12, 120))
+	ev.Rapid("gatestate", ev.Pick(8, 120))
 	rapid.Check(t, func(rt *rapid.T) {
 		plan := drawGatePlan(rt)
 		key, what, err := runGatePlan(c, &plan)
